@@ -213,7 +213,7 @@ impl BasicLexer {
         }
         if let Some(Token::Unknown(_)) = tokens.last() {
             if let Some(Token::Unknown(s)) = tokens.pop() {
-                let s = s.trim_end();
+                let s = s.trim_end_matches(is_basic_whitespace);
                 if !s.is_empty() {
                     tokens.push(Token::Unknown(s.into()));
                 } else if let Some(Token::Whitespace(_)) = tokens.last() {
